@@ -696,11 +696,23 @@ pub const CLASH_IDENTS: [&str; 50] = [
 /// magic) and raw identifiers; every field kind of the struct corpus appears next to them.
 pub fn clash_corpus() -> Vec<Program> {
     let mut out = vec![];
-    let magic_names = ["ident", "vis", "ty", "attrs", "generics", "fields", "bounds", "discriminant", "data", "default"];
+    // names that are magic members for a trait (a different meaning there, covered by C16);
+    // everywhere else they are ordinary member names
+    let magic_for = |t: Trait| -> &'static [&'static str] {
+        match t {
+            Trait::FromMeta => &[],
+            Trait::FromDeriveInput => &["ident", "vis", "generics", "data", "attrs"],
+            Trait::FromField => &["ident", "vis", "ty", "attrs"],
+            Trait::FromVariant => &["ident", "discriminant", "fields", "attrs"],
+            Trait::FromTypeParam => &["ident", "bounds", "default", "attrs"],
+            Trait::FromAttributes => &["attrs"],
+        }
+    };
     for (i, id) in CLASH_IDENTS.iter().enumerate() {
         for t in Trait::ALL {
-            if t != Trait::FromMeta && magic_names.contains(id) {
-                continue; // magic there: a different meaning, covered by C16
+            let magic_names = magic_for(t);
+            if magic_names.contains(id) {
+                continue;
             }
             let mut pool: Vec<Decl> = vec![Decl::Struct(StructDecl::new(t, vec![]))];
             let k1 = [0usize, 2, 3, 5, 6, 12, 1, 11][i % 8];
@@ -710,7 +722,7 @@ pub fn clash_corpus() -> Vec<Program> {
             let f2 = kind_field(k2, 1, &mut pool);
             let mut f3 = kind_field(0, 2, &mut pool);
             f3.rust = CLASH_IDENTS[(i + 7) % CLASH_IDENTS.len()].to_string();
-            if f3.rust == f1.rust || (t != Trait::FromMeta && magic_names.contains(&f3.rust.as_str())) {
+            if f3.rust == f1.rust || magic_names.contains(&f3.rust.as_str()) {
                 f3.rust = "plain_z".into();
             }
             let mut s = StructDecl::new(t, vec![f1, f2, f3]);
